@@ -616,6 +616,13 @@ func TestVerif_C15_Inject(t *testing.T) {
 			if v.EmitterChain != c15GovChain || v.EmitterAddress != c15GovAddr {
 				return vh.V("C15/wrong-emitter", "injected VAA %d is not from the governance emitter", i), o
 			}
+			// a pure function of the request: the envelope fields are the requested ones (nothing is filled in from the
+			// node's clock or state), so every operator injecting this request signs the same digest
+			m := b.Msgs[i]
+			if v.Timestamp.Unix() != int64(req.Timestamp) || v.GuardianSetIndex != req.CurrentSetIndex || v.Nonce != m.Nonce || v.Sequence != m.Seq || uint32(v.TargetChain) != m.Target {
+				return vh.V("C15/injected-vaa-not-the-requested-one", "injected VAA %d carries timestamp %d / set index %d / nonce %d / sequence %d / target %d; the request says %d / %d / %d / %d / %d",
+					i, v.Timestamp.Unix(), v.GuardianSetIndex, v.Nonce, v.Sequence, v.TargetChain, req.Timestamp, req.CurrentSetIndex, m.Nonce, m.Seq, m.Target), o
+			}
 		}
 		// same request again: same digests
 		resp2, err2, pan2 := call()
